@@ -171,6 +171,12 @@ static _Bool same_board(const struct Position* a, const struct Position* b) {
     for (int i = 1; i < 13; i++) if (a->pieceTypeBB_[i] != b->pieceTypeBB_[i]) return 0;
     return a->whiteBB_ == b->whiteBB_ && a->blackBB_ == b->blackBB_ && a->whiteMove == b->whiteMove && a->castleMask == b->castleMask && a->epSquare == b->epSquare; }
 struct Position ghost_pos1;
+/* complete case split of the isLegal proof: in check or not x kind of the moving piece (12 cases, each a separate run) */
+#ifdef CASE_IC
+#define ISLEGAL_CASE(p, m, ic) (((ic) != 0) == CASE_IC && (((p)->squares[(m)->from_] - 1) % 6) == CASE_PT)
+#else
+#define ISLEGAL_CASE(p, m, ic) 1
+#endif
 /* ghost move monitor (DESIGN section 3): the generators append only through MoveList::addMove; ghost_hits counts how often
    the arbitrary move ghost_m has been appended */
 struct Move ghost_m; int ghost_hits;
@@ -298,7 +304,7 @@ CONTRACTS.update({
     'MoveGen_inCheck': {'requires': [_POS, 'wf_bb(pos)', 'FLAGS_OK(pos)', 'men_ok(pos)'], 'assigns': [],
                         'ensures': ['__CPROVER_return_value == spec_in_check(pos)']},
     'MoveGen_isLegal': {'requires': [_POS, '__CPROVER_is_fresh(m, sizeof(*m))', 'wf_bb(pos)', 'FLAGS_OK(pos)', 'men_ok(pos)', 'wf_rights(pos)',
-                                     'spec_pseudo_legal(pos, m)', 'isInCheck == spec_in_check(pos)', 'same_board(pos, &ghost_pos1)'],
+                                     'spec_pseudo_legal(pos, m)', 'isInCheck == spec_in_check(pos)', 'same_board(pos, &ghost_pos1)', 'ISLEGAL_CASE(pos, m, isInCheck)'],
                         'assigns': ['*pos'],
                         # the verdict agrees with playing the move on the board; the position is left unchanged
                         'ensures': ['__CPROVER_return_value == spec_leaves_king_safe(&ghost_pos1, m)', 'same_board(pos, &ghost_pos1)']},
@@ -376,7 +382,8 @@ for _sfx in ('_w', '_b'):
     GROUPS.append(Group('checkEvasions' + _sfx, 'h_checkEvasions' + _sfx, enforce='MoveGen_checkEvasions' + _sfx, replace=_ATT + _HELP, loop_contracts=True,
                         min_props=20, expect_loop_props=4, timeout=3000))
 GROUPS.append(Group('isLegal', 'h_isLegal', enforce='MoveGen_isLegal',
-                    replace=_ATT + ('MoveGen_inCheck', 'MoveGen_sqAttacked3', 'BitBoard_getDirection', 'BitBoard_firstSquare'), min_props=10, timeout=3000))
+                    replace=_ATT + ('MoveGen_inCheck', 'MoveGen_sqAttacked3', 'BitBoard_getDirection', 'BitBoard_firstSquare'), min_props=10, timeout=3000,
+                    cases=('case', [('CASE_IC=%d' % ic, 'CASE_PT=%d' % pt) for ic in (0, 1) for pt in range(6)])))
 # groups that are part of the C01 claim (the others are built but did not close yet: run them with --only)
 CLAIMED = ['sqAttacked_w', 'sqAttacked_b', 'sqAttacked3', 'sqAttacked2', 'inCheck', 'addMovesByMask', 'addPawnDoubleMovesByMask', 'addPawnMovesByMask_w', 'addPawnMovesByMask_b']
 PROPERTIES = {'C01': CLAIMED}
